@@ -57,6 +57,11 @@ type simRun struct {
 	scrStyle StyleF
 	opIdx    int
 	polled   int // events already reported by P
+	// a cell whose content is changed and changed back between two Shows is (rightly) not redrawn, so what a clean cell shows
+	// may date from any Show since the last full redraw (Sync, or the first Show after Init/SetSize):
+	lastFull    int      // op index of the last full redraw
+	fullPending bool     // the next Show redraws everything
+	styles      []StyleF // screen styles in effect at the Shows since the last full redraw
 }
 
 func (s *simRun) finding(class, format string, a ...interface{}) {
@@ -165,7 +170,7 @@ func (s *simRun) expectedBytes(c *simShadowCell, main rune, strict bool) (want [
 		if s.cd.ambiguous(r) || r > 0x10ffff || (r >= 0xd800 && r < 0xe000) || r < ' ' {
 			return nil, false
 		}
-		if at, ch := s.fbAt[r]; ch && at > c.setAt && !strict {
+		if at, ch := s.fbAt[r]; ch && at > s.lastFull && !strict {
 			return nil, false
 		}
 	}
@@ -230,7 +235,7 @@ func (s *simRun) checkFront(after string, strict bool) {
 			} else if strict {
 				okStyle = gs == s.scrStyle
 			} else {
-				for _, d := range c.defStys {
+				for _, d := range s.styles {
 					if gs == d {
 						okStyle = true
 					}
@@ -299,7 +304,7 @@ func execSim(line string) h.Result {
 		return res
 	}
 	s := &simRun{scr: scr, cd: cd, syncCh: make(chan int, 4), res: &res, tags: map[string]bool{}, cells: map[[2]int]*simShadowCell{},
-		fb: map[rune]string{}, fbAt: map[rune]int{}}
+		fb: map[rune]string{}, fbAt: map[rune]int{}, lastFull: -1, fullPending: true}
 	for k, v := range tcell.RuneFallbacks {
 		s.fb[k] = v
 	}
@@ -383,17 +388,10 @@ func execSim(line string) h.Result {
 				}
 				lw, lh = nw, nh
 			}
-			for _, c := range s.cells {
-				c.defStys = append(c.defStys, s.scrStyle)
+			if f[0] == "N" || s.fullPending {
+				s.lastFull, s.fullPending, s.styles = i, false, nil
 			}
-			for y := 0; y < lh; y++ {
-				for x := 0; x < lw; x++ {
-					c := s.shadowAt(x, y)
-					if len(c.defStys) == 0 {
-						c.defStys = append(c.defStys, s.scrStyle)
-					}
-				}
-			}
+			s.styles = append(s.styles, s.scrStyle)
 			s.checkFront(op, f[0] == "N")
 			if cursorValid {
 				s.checkCursor(op, cursorSet)
@@ -455,6 +453,9 @@ func execSim(line string) h.Result {
 			}
 			for _, c := range s.cells {
 				c.lastCol = false
+			}
+			if w != olw || hh != olh {
+				s.fullPending = true // the logical buffer is (or will be) resized: every cell is redrawn by the next Show
 			}
 			cursorValid = false // SetSize resets the cursor; the statement does not say what the query reports then
 			s.tags["setsize"] = true
